@@ -50,7 +50,8 @@ Definition fnn (g : its) (seeds : list N) (k : Z) : option (list N) :=
 
 (** ** observables *)
 Definition tdval (v : dval) : tok := match v with DG g => L [tN 0; tits g] | DZ z => L [tN 1; tZ z] end.
-Definition tdict (d : dict) : tok := tlist (fun p : N * dval => L [tN (fst p); tdval (snd p)]) d.
+(* entries as a SET: the key order of the result is modelled (theorem 29a) but not compared — no clause of the property depends on it *)
+Definition tdict (d : dict) : tok := tset (fun p : N * dval => L [tN (fst p); tdval (snd p)]) d.
 Definition run_dict (d : dict) (its_key ctx_key : N) (k : Z) : tok := topt tdict (context_extraction_d d its_key ctx_key k).
 Definition run_dicts (ds : list dict) (its_key ctx_key : N) (k : Z) : tok := topt (tlist tdict) (parallel_d ds its_key ctx_key k).
 (** find_nearest_neighbors for the radii ks, then extract_subgraph on the result of the first radius *)
